@@ -510,6 +510,11 @@ Definition top_level_checks (c : ctx) (s : summary) : tres :=
 Definition threshold_new (MAX k n : N) : bool :=
   negb ((k =? 0) || (n <? k) || ((0 <? MAX) && (MAX <? n))).
 
+(* Threshold::from_iter(k, iter): `hint` = iter.size_hint().0, `n` = the number of items the
+   iterator yields.  Early refusal when max(k, hint) exceeds MAX, otherwise Threshold::new. *)
+Definition threshold_from_iter (MAX k hint n : N) : bool :=
+  if (0 <? MAX) && (MAX <? N.max k hint) then false else threshold_new MAX k n.
+
 Definition MAX_ABSOLUTE_LOCKTIME : N := 2147483647.   (* 0x7FFF_FFFF *)
 Definition MIN_ABSOLUTE_LOCKTIME : N := 1.
 (* AbsLockTime::from_consensus(n : u32) *)
